@@ -511,6 +511,65 @@ func TestVerifC05Native(t *testing.T) {
 		}, func() string { return msg })
 	}
 
+	// ---- an absent non-optional map member: whether it is refused is not asserted; when it is accepted the
+	// result holds its own empty map - writing into it must not change any later result
+	type absMap struct {
+		M map[string]any `json:"m" key:"m"`
+	}
+	type absMap2 struct {
+		S map[string]string `json:"s" key:"s"`
+		M map[string]any    `json:"m" key:"m"`
+	}
+	type absInner struct {
+		Inner struct {
+			X int    `json:"x,default=5" key:"x,default=5"`
+			Y string `json:"y,optional" key:"y,optional"`
+		} `json:"inner" key:"inner"`
+		Ptr *struct {
+			X int `json:"x,default=5" key:"x,default=5"`
+		} `json:"ptr" key:"ptr"`
+	}
+	for _, epn := range c05nEPOrder {
+		epn := epn
+		ep := eps[epn]
+		var msg string
+		add("shared-empty-map", "absent non-optional map[string]any, then written to by its owner, via "+epn, "free", func() error {
+			msg = ""
+			var a1, a2 absMap
+			if err := ep(`{}`, &a1); err != nil {
+				return err // refusing an absent required member is fine
+			}
+			if len(a1.M) != 0 {
+				msg = fmt.Sprintf("absent map member came out as %v", a1.M)
+				return nil
+			}
+			defer func() {
+				for k := range a1.M { // if the map is shared after all, do not leave the pollution behind for the other monitors
+					delete(a1.M, k)
+				}
+			}()
+			if a1.M != nil {
+				a1.M["x"], a1.M["y"], a1.M["m"], a1.M["s"], a1.M["inner"] = 1, "polluted", map[string]any{"k": "v"}, map[string]any{"k": "v"}, map[string]any{"x": 2}
+			}
+			if err := ep(`{}`, &a2); err == nil && len(a2.M) != 0 {
+				msg = fmt.Sprintf("after the owner of an earlier result wrote into its (absent, accepted-as-empty) map member, the next absent map member is %v", a2.M)
+				return nil
+			}
+			var b absMap2
+			if err := ep(`{}`, &b); err == nil && (len(b.M) != 0 || len(b.S) != 0) {
+				msg = fmt.Sprintf("... another struct type gets m=%v s=%v for absent members", b.M, b.S)
+				return nil
+			}
+			var in absInner
+			if err := ep(`{}`, &in); err != nil {
+				msg = fmt.Sprintf("... a struct whose members all have defaults is now refused: %v", err)
+			} else if in.Inner.X != 5 || in.Inner.Y != "" || in.Ptr == nil || in.Ptr.X != 5 {
+				msg = fmt.Sprintf("... an absent nested struct with default=5 comes out as inner=%+v ptr=%+v", in.Inner, in.Ptr)
+			}
+			return nil
+		}, func() string { return msg })
+	}
+
 	// ---- optional embedded struct given partially
 	type embIn struct {
 		A int `json:"a"`
@@ -576,6 +635,82 @@ func TestVerifC05Native(t *testing.T) {
 		}
 		return ""
 	})
+	// the same below pointer-to-struct members (every level by pointer, and mixed)
+	type inhPC struct {
+		Host string `json:"host,inherit"`
+		Own  string `json:"own,optional,inherit"`
+	}
+	type inhPB struct {
+		Host string `json:"host,inherit"`
+		C    *inhPC `json:"c"`
+		CV   inhPC  `json:"cv"`
+	}
+	type inhPA struct {
+		N int    `json:"n,optional"`
+		B *inhPB `json:"b"`
+	}
+	type inhP struct {
+		Host string `json:"host"`
+		A    *inhPA `json:"a"`
+		AV   struct {
+			B *inhPB `json:"b"`
+		} `json:"av"`
+	}
+	var ip inhP
+	for _, epn := range []string{"UnmarshalJsonBytes", "UnmarshalYamlBytes", "UnmarshalJsonMap", "UnmarshalJsonReader"} {
+		epn := epn
+		ep := eps[epn]
+		add("inherit", "members below pointer-to-struct fields see the enclosing levels via "+epn, "ok", func() error {
+			ip = inhP{}
+			return ep(`{"host":"h0","a":{"n":1,"b":{"c":{},"cv":{}}},"av":{"b":{"host":"h2","c":{},"cv":{"host":"h3"}}}}`, &ip)
+		}, func() string {
+			if ip.A == nil || ip.A.B == nil || ip.A.B.C == nil || ip.AV.B == nil || ip.AV.B.C == nil {
+				return fmt.Sprintf("nil pointer in %+v", ip)
+			}
+			got := []string{ip.A.B.Host, ip.A.B.C.Host, ip.A.B.CV.Host, ip.A.B.C.Own, ip.AV.B.Host, ip.AV.B.C.Host, ip.AV.B.CV.Host}
+			want := []string{"h0", "h0", "h0", "", "h2", "h2", "h3"}
+			if !reflect.DeepEqual(got, want) {
+				return fmt.Sprintf("a.b.host a.b.c.host a.b.cv.host a.b.c.own av.b.host av.b.c.host av.b.cv.host = %q, want %q", got, want)
+			}
+			return ""
+		})
+	}
+	type inhPReq struct {
+		A *struct {
+			Host string `json:"host,inherit"`
+		} `json:"a"`
+	}
+	var ipr inhPReq
+	add("inherit", "required inherit member below a pointer, absent at every level", "error", func() error { ipr = inhPReq{}; return UnmarshalJsonBytes([]byte(`{"a":{}}`), &ipr) }, nil)
+	type inhPMerge struct {
+		Etcd c05nEtcd `json:"etcd"`
+		Rpc  *struct {
+			Etcd  c05nEtcd  `json:"etcd,inherit"`
+			Etcd2 *c05nEtcd `json:"etcd,inherit"`
+		} `json:"rpc"`
+	}
+	var ipm inhPMerge
+	add("inherit", "object merge with the parent's object below a pointer-to-struct member", "ok", func() error {
+		ipm = inhPMerge{}
+		return UnmarshalJsonBytes([]byte(`{"etcd":{"hosts":["a","b"],"key":"k0"},"rpc":{"etcd":{"key":"k1"}}}`), &ipm)
+	}, func() string {
+		want := c05nEtcd{[]string{"a", "b"}, "k1"}
+		if ipm.Rpc == nil || ipm.Rpc.Etcd2 == nil || !reflect.DeepEqual(ipm.Rpc.Etcd, want) || !reflect.DeepEqual(*ipm.Rpc.Etcd2, want) {
+			return fmt.Sprintf("rpc=%+v", ipm.Rpc)
+		}
+		return ""
+	})
+	add("inherit", "object absent below a pointer: the parent's object", "ok", func() error {
+		ipm = inhPMerge{}
+		return UnmarshalJsonBytes([]byte(`{"etcd":{"hosts":["a"],"key":"k0"},"rpc":{}}`), &ipm)
+	}, func() string {
+		want := c05nEtcd{[]string{"a"}, "k0"}
+		if ipm.Rpc == nil || ipm.Rpc.Etcd2 == nil || !reflect.DeepEqual(ipm.Rpc.Etcd, want) || !reflect.DeepEqual(*ipm.Rpc.Etcd2, want) {
+			return fmt.Sprintf("rpc=%+v", ipm.Rpc)
+		}
+		return ""
+	})
+
 	type inhReq struct {
 		A struct {
 			Host string `json:"host,inherit"`
